@@ -633,11 +633,15 @@ def r02_7_8(ctx: Ctx):
         r_calls = C.call_events(p, callee=cw)
         i_calls = C.call_events(p, among=ins)
         loc = rn.loc()
-        if not ctx.check(len(d_old) >= 1 and len(d_new) >= 1, rid, rn.short, loc, 'both interval lengths are refreshed',
-                         'the renewal does not refresh the lengths of both new intervals',
-                         key=f'{rid}::{rn.short}::both-deltas'):
+        from .containers import selection_delta_stores
+        early = selection_delta_stores(ctx)      # lengths written earlier in the same iteration also count
+        have_old = bool(d_old) or bool(early['old'])
+        have_new = bool(d_new) or bool(early['new'])
+        if not ctx.check(have_old and have_new, rid, rn.short, loc, 'both interval lengths are refreshed in the iteration',
+                         'the lengths of both new intervals are not refreshed before M and the characteristics are '
+                         'computed', key=f'{rid}::{rn.short}::both-deltas'):
             continue
-        last_delta = max(idx[id(d_old[-1])], idx[id(d_new[-1])])
+        last_delta = max([idx[id(x[-1])] for x in (d_old, d_new) if x] or [-1])
 
         def pairs_ok(calls):
             got = sorted((C.fmt(c.d['args'][0]), C.fmt(c.d['args'][1])) for c in calls if len(c.d['args']) >= 2)
@@ -687,7 +691,17 @@ def r02_7_8(ctx: Ctx):
                       'the renewal routine does not receive (new, old) as returned by the selection routine',
                       key=f'R02.8::{drv.short}::pair-order')
     ctx.floor('R02.8', 'selection->renewal hand-overs in the iteration driver', n, 1)
-    # the selection routine returns (new, old) = (constructed item, popped item)
+    r02_8_selection(ctx)
+
+
+def r02_8_selection(ctx: Ctx):
+    """The selection routine returns (new, old) = (Item(Point(GetImage(x)), x), popped item)."""
+    roles = C.roles_of(ctx)
+    try:
+        sel = roles.selection
+    except RoleMissing as e:
+        ctx.fail('R02.8', f'role {e.role}', 'iOpt/', str(e), key=f'R02.8::role::{e.role}')
+        return
     pops = roles.sd_method('GetDataItemWithMaxGlobalR')
     npr = roles.new_point_routine
     gi = ctx.ix.func('Evolvent.GetImage')
